@@ -156,9 +156,15 @@ def triage(pid, violations):
         sig = v["signature"]
         hit = None
         for k in known:
-            if re.search(k["match"], sig):
-                hit = k
-                break
+            if not re.search(k["match"], sig):
+                continue
+            if "shapes" in k:
+                # deadlocks are identified by the exact (sorted) set of sites the threads are stuck at
+                m = re.search(r"deadlock:(.*?)(?: \||$)", sig)
+                if not m or m.group(1).strip() not in k["shapes"]:
+                    continue
+            hit = k
+            break
         if hit:
             if hit["id"] not in printed:
                 printed.add(hit["id"])
